@@ -79,6 +79,21 @@ Theorem C12_no_source_filter_returns_all_sources : forall (e : env) (a : args),
 Proof. exact no_source_filter_spec. Qed.
 Print Assumptions C12_no_source_filter_returns_all_sources.
 
+(* open() of another file on the same loader empties the cache: whatever was read from the first file (any history h1
+   on any log e1), reads on the second file return what a fresh loader returns (repair /repo 8223552; that open()
+   assigns {} to self.data is re-read from the source on every run). *)
+Theorem C12_open_resets_cache : forall (e1 : env) (h1 : list args) (e2 : env) (h2 : list args) (a : args),
+  env_ok e2 -> snd (read e2 (run e2 (reopen (run e1 init_state h1)) h2) a) = fresh e2 a.
+Proof. exact open_resets. Qed.
+Print Assumptions C12_open_resets_cache.
+
+Theorem C12_open_legacy_refuted :
+  ords_of (snd (read senv (reopen_gen false (run wenv init_state [call [POSE]])) (call [POSE]))) POSE = Some [1; 2; 8]%N /\
+  ords_of (fresh senv (call [POSE])) POSE = Some [0; 1; 2]%N /\
+  ords_of (snd (read senv (reopen (run wenv init_state [call [POSE]])) (call [POSE]))) POSE = Some [0; 1; 2]%N.
+Proof. exact legacy_open_keeps_cache. Qed.
+Print Assumptions C12_open_legacy_refuted.
+
 (* What the pre-repair code did (the records of the findings that led to /repo dabd2e0 and 224b603). *)
 Theorem C12_cache_transparent_legacy_refuted :
   exists e h a, env_ok e /\ snd (read_legacy e (run_gen legacy e init_state h) a) <> snd (read_legacy e init_state a).
